@@ -7,10 +7,14 @@ Local Open Scope N_scope.
 (* ------------------------------------------------------------------ table facts *)
 (* Everything the proofs need to know about the regenerated constants, decided by
    computation on what the code says now. *)
+(* what the proofs need of a temporary character of cleanse, when the code has one *)
+Definition tmp_ok (t : char) : bool :=
+  negb (t =? esc_char) && negb (t =? sep0) && negb (t =? sep1).
+
 Definition cell_tables_ok : bool :=
   negb (esc_char =? sep0) && negb (esc_char =? sep1) && negb (sep0 =? sep1)
-  && negb (tmp_char =? esc_char) && negb (tmp_char =? sep0) && negb (tmp_char =? sep1)
-  && negb (is_ws esc_char) && negb (is_ws sep0) && negb (is_ws sep1).
+  && negb (is_ws esc_char) && negb (is_ws sep0) && negb (is_ws sep1)
+  && match cleanse_tmp with Some t => tmp_ok t && negb (is_ws t) | None => true end.
 
 Lemma cell_tables_ok_true : cell_tables_ok = true.
 Proof. vm_compute. reflexivity. Qed.
@@ -25,12 +29,23 @@ Ltac tab_facts :=
 Lemma esc_ne_sep0 : (esc_char =? sep0) = false. Proof. tab_facts; assumption. Qed.
 Lemma esc_ne_sep1 : (esc_char =? sep1) = false. Proof. tab_facts; assumption. Qed.
 Lemma sep0_ne_sep1 : (sep0 =? sep1) = false. Proof. tab_facts; assumption. Qed.
-Lemma tmp_ne_esc : (tmp_char =? esc_char) = false. Proof. tab_facts; assumption. Qed.
-Lemma tmp_ne_sep0 : (tmp_char =? sep0) = false. Proof. tab_facts; assumption. Qed.
-Lemma tmp_ne_sep1 : (tmp_char =? sep1) = false. Proof. tab_facts; assumption. Qed.
 Lemma ws_esc : is_ws esc_char = false. Proof. tab_facts; assumption. Qed.
 Lemma ws_sep0 : is_ws sep0 = false. Proof. tab_facts; assumption. Qed.
 Lemma ws_sep1 : is_ws sep1 = false. Proof. tab_facts; assumption. Qed.
+
+Lemma cleanse_tmp_ok t : cleanse_tmp = Some t -> tmp_ok t = true /\ is_ws t = false.
+Proof.
+  intros E. pose proof cell_tables_ok_true as H. unfold cell_tables_ok in H. rewrite E in H.
+  apply andb_true_iff in H as [_ H]. apply andb_true_iff in H as [H1 H2].
+  apply negb_true_iff in H2. split; assumption.
+Qed.
+
+Lemma tmp_ok_inv t :
+  tmp_ok t = true -> (t =? esc_char) = false /\ (t =? sep0) = false /\ (t =? sep1) = false.
+Proof.
+  unfold tmp_ok. intros H. apply andb_true_iff in H as [H H3]. apply andb_true_iff in H as [H1 H2].
+  apply negb_true_iff in H1, H2, H3. repeat split; assumption.
+Qed.
 
 Lemma eqb_sym_false a b : (a =? b) = false -> (b =? a) = false.
 Proof. rewrite N.eqb_sym. auto. Qed.
@@ -50,17 +65,17 @@ Proof.
   destruct (x =? c); rewrite IH; [rewrite app_assoc|]; reflexivity.
 Qed.
 
-Lemma replace2_cons_ne a b n c x :
+Lemma replace2_cons_ne (a b : char) (n : str) (c : char) (x : str) :
   (c =? a) = false -> replace2 a b n (c :: x) = c :: replace2 a b n x.
 Proof.
   intros H. destruct x as [|d x]; cbn [replace2]; [reflexivity|].
   rewrite H. reflexivity.
 Qed.
 
-Lemma replace2_hit a b n x : replace2 a b n (a :: b :: x) = n ++ replace2 a b n x.
+Lemma replace2_hit (a b : char) (n x : str) : replace2 a b n (a :: b :: x) = n ++ replace2 a b n x.
 Proof. cbn [replace2]. rewrite !N.eqb_refl. reflexivity. Qed.
 
-Lemma replace2_miss a b n d x :
+Lemma replace2_miss (a b : char) (n : str) (d : char) (x : str) :
   (d =? b) = false -> replace2 a b n (a :: d :: x) = a :: replace2 a b n (d :: x).
 Proof. intros H. cbn [replace2]. rewrite H, andb_false_r. reflexivity. Qed.
 
@@ -260,104 +275,204 @@ Proof.
     + rewrite (IH H). apply orb_true_r.
 Qed.
 
-Lemma tmp_free_strip s : mem_char tmp_char s = false -> mem_char tmp_char (strip s) = false.
+Lemma mem_strip_false t s : mem_char t s = false -> mem_char t (strip s) = false.
 Proof.
-  intros H. destruct (mem_char tmp_char (strip s)) eqn:E; [|reflexivity].
+  intros H. destruct (mem_char t (strip s)) eqn:E; [|reflexivity].
   unfold strip in E. apply mem_rstrip, mem_lstrip in E. congruence.
 Qed.
 
 (* ------------------------------------------------------------------ unescape *)
-(* the four replace phases of cleanse, after strip *)
-Definition unescape_phases (s : str) : str :=
-  replace1 tmp_char [esc_char]
-    (replace2 esc_char sep1 [sep1]
-       (replace2 esc_char sep0 [sep0]
-          (replace2 esc_char esc_char [tmp_char] s))).
+(* ---- the one-pass un-escape (the repaired cleanse) inverts escape on EVERY string ---- *)
+Lemma unescape_cons_plain c r : (c =? esc_char) = false -> unescape (c :: r) = c :: unescape r.
+Proof. intros H. destruct r as [|d r']; cbn [unescape]; [reflexivity|]. rewrite H. reflexivity. Qed.
 
-Definition st1 (c : char) : str :=
-  if c =? esc_char then [tmp_char] else if is_sep c then [esc_char; c] else [c].
-Definition st2 (c : char) : str :=
-  if c =? esc_char then [tmp_char] else if c =? sep0 then [sep0]
-  else if c =? sep1 then [esc_char; sep1] else [c].
-Definition st3 (c : char) : str := if c =? esc_char then [tmp_char] else [c].
+Lemma unescape_escaped d r : is_special d = true -> unescape (esc_char :: d :: r) = d :: unescape r.
+Proof. intros H. cbn [unescape]. rewrite N.eqb_refl, H. reflexivity. Qed.
 
-Lemma phase1 t : replace2 esc_char esc_char [tmp_char] (escape t) = flat_map st1 t.
+Lemma unescape_esc_other d r :
+  is_special d = false -> unescape (esc_char :: d :: r) = esc_char :: d :: unescape r.
 Proof.
-  induction t as [|c r IH]; [reflexivity|].
-  cbn [escape flat_map]. unfold st1 at 1, is_special.
-  destruct (c =? esc_char) eqn:E1.
-  - apply N.eqb_eq in E1. subst c. cbn [orb]. rewrite replace2_hit, IH. reflexivity.
-  - cbn [orb]. destruct (is_sep c) eqn:E2.
-    + rewrite replace2_miss by exact E1. rewrite replace2_cons_ne by exact E1.
-      rewrite IH. reflexivity.
-    + rewrite replace2_cons_ne by exact E1. rewrite IH. reflexivity.
+  intros H. change (unescape (esc_char :: d :: r)) with
+    (if (esc_char =? esc_char) && is_special d then d :: unescape r else esc_char :: unescape (d :: r)).
+  rewrite H, andb_false_r. rewrite unescape_cons_plain; [reflexivity|].
+  unfold is_special in H. apply orb_false_elim in H as [H _]. exact H.
 Qed.
 
-Lemma phase2 t : replace2 esc_char sep0 [sep0] (flat_map st1 t) = flat_map st2 t.
+Theorem unescape_escape s : unescape (escape s) = s.
 Proof.
-  induction t as [|c r IH]; [reflexivity|].
-  cbn [flat_map]. unfold st1 at 1, st2 at 1, is_sep.
-  destruct (c =? esc_char) eqn:E1.
-  - cbn [app]. rewrite replace2_cons_ne by apply tmp_ne_esc. rewrite IH. reflexivity.
-  - destruct (c =? sep0) eqn:E2.
-    + apply N.eqb_eq in E2. subst c. cbn [orb app]. rewrite replace2_hit, IH. reflexivity.
-    + cbn [orb]. destruct (c =? sep1) eqn:E3.
-      * cbn [app]. rewrite replace2_miss by exact E2. rewrite replace2_cons_ne by exact E1.
-        rewrite IH. apply N.eqb_eq in E3. subst c. reflexivity.
-      * cbn [app]. rewrite replace2_cons_ne by exact E1. rewrite IH. reflexivity.
+  induction s as [|c r IH]; [reflexivity|].
+  cbn [escape]. destruct (is_special c) eqn:Es.
+  - rewrite unescape_escaped by exact Es. rewrite IH. reflexivity.
+  - unfold is_special in Es. apply orb_false_elim in Es as [Es _].
+    rewrite unescape_cons_plain by exact Es. rewrite IH. reflexivity.
 Qed.
 
-Lemma phase3 t : replace2 esc_char sep1 [sep1] (flat_map st2 t) = flat_map st3 t.
+(* ---- the four replace phases through a temporary character t (cleanse before the repair)
+        compute the same function on every string that does not contain t ---- *)
+Section Phases.
+  Variable t : char.
+  Hypothesis Hok : tmp_ok t = true.
+
+  Let Te : (t =? esc_char) = false. Proof. apply (tmp_ok_inv t Hok). Qed.
+  Let T0 : (t =? sep0) = false. Proof. apply (tmp_ok_inv t Hok). Qed.
+  Let T1 : (t =? sep1) = false. Proof. apply (tmp_ok_inv t Hok). Qed.
+
+  Lemma phases_nil : unescape_phases t [] = [].
+  Proof. reflexivity. Qed.
+
+  Lemma phases_single_esc : unescape_phases t [esc_char] = [esc_char].
+  Proof.
+    unfold unescape_phases. cbn [replace2 replace1].
+    rewrite (eqb_sym_false _ _ Te). reflexivity.
+  Qed.
+
+  Lemma phases_cons_plain (c : char) (x : str) :
+    (c =? esc_char) = false -> (c =? t) = false ->
+    unescape_phases t (c :: x) = c :: unescape_phases t x.
+  Proof.
+    intros Hc Ht. unfold unescape_phases.
+    rewrite (replace2_cons_ne esc_char esc_char [t] c x) by exact Hc.
+    rewrite (replace2_cons_ne esc_char sep0 [sep0] c) by exact Hc.
+    rewrite (replace2_cons_ne esc_char sep1 [sep1] c) by exact Hc.
+    cbn [replace1]. rewrite Ht. reflexivity.
+  Qed.
+
+  Lemma phases_esc_esc (x : str) : unescape_phases t (esc_char :: esc_char :: x) = esc_char :: unescape_phases t x.
+  Proof.
+    unfold unescape_phases. rewrite (replace2_hit esc_char esc_char [t] x). cbn [app].
+    rewrite (replace2_cons_ne esc_char sep0 [sep0] t) by exact Te.
+    rewrite (replace2_cons_ne esc_char sep1 [sep1] t) by exact Te.
+    cbn [replace1]. rewrite N.eqb_refl. reflexivity.
+  Qed.
+
+  Lemma phases_esc_sep0 (x : str) : unescape_phases t (esc_char :: sep0 :: x) = sep0 :: unescape_phases t x.
+  Proof.
+    pose proof (eqb_sym_false _ _ esc_ne_sep0) as S0e.
+    unfold unescape_phases.
+    rewrite (replace2_miss esc_char esc_char [t] sep0 x) by exact S0e.
+    rewrite (replace2_cons_ne esc_char esc_char [t] sep0 x) by exact S0e.
+    rewrite (replace2_hit esc_char sep0 [sep0]). cbn [app].
+    rewrite (replace2_cons_ne esc_char sep1 [sep1] sep0) by exact S0e.
+    cbn [replace1]. rewrite (eqb_sym_false _ _ T0). reflexivity.
+  Qed.
+
+  Lemma phases_esc_sep1 (x : str) : unescape_phases t (esc_char :: sep1 :: x) = sep1 :: unescape_phases t x.
+  Proof.
+    pose proof (eqb_sym_false _ _ esc_ne_sep1) as S1e.
+    pose proof (eqb_sym_false _ _ sep0_ne_sep1) as S10.
+    unfold unescape_phases.
+    rewrite (replace2_miss esc_char esc_char [t] sep1 x) by exact S1e.
+    rewrite (replace2_cons_ne esc_char esc_char [t] sep1 x) by exact S1e.
+    rewrite (replace2_miss esc_char sep0 [sep0] sep1) by exact S10.
+    rewrite (replace2_cons_ne esc_char sep0 [sep0] sep1) by exact S1e.
+    rewrite (replace2_hit esc_char sep1 [sep1]). cbn [app].
+    cbn [replace1]. rewrite (eqb_sym_false _ _ T1). reflexivity.
+  Qed.
+
+  Lemma phases_esc_other (d : char) (x : str) :
+    is_special d = false -> (d =? t) = false ->
+    unescape_phases t (esc_char :: d :: x) = esc_char :: d :: unescape_phases t x.
+  Proof.
+    intros Hd Ht. unfold is_special, is_sep in Hd.
+    apply orb_false_elim in Hd as [De Hd]. apply orb_false_elim in Hd as [D0 D1].
+    unfold unescape_phases.
+    rewrite (replace2_miss esc_char esc_char [t] d x) by exact De.
+    rewrite (replace2_cons_ne esc_char esc_char [t] d x) by exact De.
+    rewrite (replace2_miss esc_char sep0 [sep0] d) by exact D0.
+    rewrite (replace2_cons_ne esc_char sep0 [sep0] d) by exact De.
+    rewrite (replace2_miss esc_char sep1 [sep1] d) by exact D1.
+    rewrite (replace2_cons_ne esc_char sep1 [sep1] d) by exact De.
+    cbn [replace1]. rewrite (eqb_sym_false _ _ Te), Ht. reflexivity.
+  Qed.
+
+  (* the repair does not change the result for any string without the temporary character *)
+  Theorem phases_one_pass s : mem_char t s = false -> unescape_phases t s = unescape s.
+  Proof.
+    assert (H : forall (n : nat) s, (length s <= n)%nat -> mem_char t s = false ->
+                                    unescape_phases t s = unescape s).
+    { induction n as [|n IH]; intros [|c r] Hl Hm; try reflexivity; cbn [length] in Hl; try lia.
+      cbn [mem_char] in Hm. apply orb_false_elim in Hm as [Hc Hr].
+      destruct (c =? esc_char) eqn:Ec.
+      - apply N.eqb_eq in Ec. subst c.
+        destruct r as [|d r']; [rewrite phases_single_esc; reflexivity|].
+        cbn [mem_char] in Hr. apply orb_false_elim in Hr as [Hd Hr'].
+        cbn [length] in Hl.
+        assert (IHr : unescape_phases t r' = unescape r') by (apply IH; [lia|exact Hr']).
+        destruct (is_special d) eqn:Ed.
+        + rewrite unescape_escaped by exact Ed. rewrite <- IHr.
+          unfold is_special, is_sep in Ed.
+          destruct (d =? esc_char) eqn:D1; [apply N.eqb_eq in D1; subst d; apply phases_esc_esc|].
+          destruct (d =? sep0) eqn:D2; [apply N.eqb_eq in D2; subst d; apply phases_esc_sep0|].
+          destruct (d =? sep1) eqn:D3; [apply N.eqb_eq in D3; subst d; apply phases_esc_sep1|].
+          discriminate.
+        + rewrite unescape_esc_other by exact Ed. rewrite <- IHr.
+          apply phases_esc_other; assumption.
+      - rewrite phases_cons_plain by assumption. rewrite unescape_cons_plain by exact Ec.
+        f_equal. apply IH; [lia|exact Hr]. }
+    apply (H (length s)). apply le_n.
+  Qed.
+
+  (* ... and DOES change it for the temporary character itself: it comes back as the escape character *)
+  Lemma phases_eat_tmp : unescape_phases t [t] = [esc_char].
+  Proof. unfold unescape_phases. cbn [replace2 replace1]. rewrite N.eqb_refl. reflexivity. Qed.
+
+  Lemma escape_tmp : escape [t] = [t].
+  Proof. cbn [escape]. unfold is_special, is_sep. rewrite Te, T0, T1. reflexivity. Qed.
+
+  Lemma mem_char_escape s : mem_char t (escape s) = mem_char t s.
+  Proof.
+    induction s as [|c r IH]; [reflexivity|].
+    cbn [escape]. destruct (is_special c); cbn [mem_char]; rewrite IH;
+      [rewrite (eqb_sym_false _ _ Te)|]; reflexivity.
+  Qed.
+End Phases.
+
+(* the strings the code as coded can carry: all of them when cleanse has no temporary character *)
+Definition str_ok (s : str) : bool :=
+  match cleanse_tmp with Some t => negb (mem_char t s) | None => true end.
+
+Lemma str_ok_total : cleanse_tmp = None -> forall s, str_ok s = true.
+Proof. intros E s. unfold str_ok. rewrite E. reflexivity. Qed.
+
+Theorem cleanse_escape s : str_ok s = true -> cleanse_str (escape s) = strip s.
 Proof.
-  induction t as [|c r IH]; [reflexivity|].
-  cbn [flat_map]. unfold st2 at 1, st3 at 1.
-  destruct (c =? esc_char) eqn:E1.
-  - cbn [app]. rewrite replace2_cons_ne by apply tmp_ne_esc. rewrite IH. reflexivity.
-  - destruct (c =? sep0) eqn:E2.
-    + cbn [app]. rewrite replace2_cons_ne by (apply eqb_sym_false, esc_ne_sep0).
-      rewrite IH. apply N.eqb_eq in E2. subst c. reflexivity.
-    + destruct (c =? sep1) eqn:E3.
-      * cbn [app]. rewrite replace2_hit, IH. apply N.eqb_eq in E3. subst c. reflexivity.
-      * cbn [app]. rewrite replace2_cons_ne by exact E1. rewrite IH. reflexivity.
+  unfold str_ok, cleanse_str. rewrite strip_escape_commute.
+  destruct cleanse_tmp as [t|] eqn:Et.
+  - intros H. apply negb_true_iff in H. destruct (cleanse_tmp_ok t Et) as [Hok _].
+    rewrite (phases_one_pass t Hok).
+    + apply unescape_escape.
+    + rewrite (mem_char_escape t Hok). apply mem_strip_false, H.
+  - intros _. apply unescape_escape.
 Qed.
 
-Lemma phase4 t : mem_char tmp_char t = false -> replace1 tmp_char [esc_char] (flat_map st3 t) = t.
-Proof.
-  induction t as [|c r IH]; [reflexivity|].
-  cbn [mem_char flat_map]. intros H. apply orb_false_elim in H as [H1 H2].
-  unfold st3 at 1. destruct (c =? esc_char) eqn:E1.
-  - cbn [app replace1]. rewrite N.eqb_refl. cbn [app]. rewrite (IH H2).
-    apply N.eqb_eq in E1. subst c. reflexivity.
-  - cbn [app replace1]. rewrite H1, (IH H2). reflexivity.
-Qed.
+(* when the code HAS a temporary character t (the U+0001 defect), the value [t] does not survive *)
+Lemma strip_single c : is_ws c = false -> strip [c] = [c].
+Proof. intros H. unfold strip. cbn [lstrip]. rewrite H. cbn [rstrip]. rewrite H. reflexivity. Qed.
 
-Theorem unescape_escape t : mem_char tmp_char t = false -> unescape_phases (escape t) = t.
+Theorem tmp_char_lost t : cleanse_tmp = Some t -> cleanse_str (escape [t]) <> strip [t].
 Proof.
-  intros H. unfold unescape_phases. rewrite phase1, phase2, phase3. apply phase4, H.
+  intros Et. destruct (cleanse_tmp_ok t Et) as [Hok Hws].
+  unfold cleanse_str. rewrite Et, (escape_tmp t Hok), (strip_single t Hws), (phases_eat_tmp t).
+  intros E. injection E as E. destruct (tmp_ok_inv t Hok) as (Te & _).
+  rewrite E, N.eqb_refl in Te. discriminate.
 Qed.
-
-Theorem cleanse_escape s : mem_char tmp_char s = false -> cleanse_str (escape s) = strip s.
-Proof.
-  intros H. unfold cleanse_str. rewrite strip_escape_commute.
-  apply (unescape_escape (strip s)), tmp_free_strip, H.
-Qed.
-
-(* the U+0001 defect, as a theorem about the model: a value consisting of the temporary
-   character does not survive *)
-Theorem tmp_char_refuted : cleanse_str (escape [tmp_char]) <> strip [tmp_char].
-Proof. vm_compute. discriminate. Qed.
 
 (* ------------------------------------------------------------------ round trips *)
+Lemma split_escape s : split_into_lists (escape s) = Str (cleanse_str (escape s)).
+Proof.
+  unfold split_into_lists.
+  rewrite (split_closed sep0) by (apply closed_escape; left; reflexivity).
+  rewrite (split_closed sep1) by (apply closed_escape; right; reflexivity).
+  reflexivity.
+Qed.
+
 Theorem string_roundtrip s :
-  mem_char tmp_char s = false ->
+  str_ok s = true ->
   join_from_lists 0 (Str s) = Some (escape s) /\ split_into_lists (escape s) = Str (strip s).
 Proof.
   intros H. split.
   - cbn [join_from_lists]. rewrite escape_string_one_pass. reflexivity.
-  - unfold split_into_lists.
-    rewrite (split_closed sep0) by (apply closed_escape; left; reflexivity).
-    rewrite (split_closed sep1) by (apply closed_escape; right; reflexivity).
-    cbn [split_res_to_nv cleanse]. rewrite cleanse_escape by exact H. reflexivity.
+  - rewrite split_escape, cleanse_escape by exact H. reflexivity.
 Qed.
 
 (* ---- one level of joining, over plain lists of blocks ---- *)
@@ -436,7 +551,7 @@ Definition elem_nv (e : elem) : nv :=
 Definition piece (e : elem) : str :=
   match e with EStr s => escape s | ELst ss => joinP sep1 (map escape ss) end.
 
-Definition tmp_free (s : str) : Prop := mem_char tmp_char s = false.
+Definition tmp_free (s : str) : Prop := str_ok s = true.
 Definition elem_wf (e : elem) : Prop :=
   match e with
   | EStr s => tmp_free s
@@ -565,7 +680,6 @@ Proof.
 Qed.
 
 (* ---- the same, for untyped nested values and a boolean predicate the harness runs ---- *)
-Definition str_ok (s : str) : bool := negb (mem_char tmp_char s).
 Definition nonblank (v : nv) : bool := match v with Str [] => false | _ => true end.
 Definition is_nil {X} (l : list X) : bool := match l with [] => true | _ => false end.
 Definition last_ok (l : list nv) : bool :=
@@ -580,7 +694,8 @@ Definition elem_ok (v : nv) : bool :=
   | Lst l => negb (is_nil l) && last_ok l && forallb leaf_ok l
   end.
 (* wfb: depth <= 2, lists non-empty, a list of two or more elements does not end in the
-   empty string, no string contains the temporary character *)
+   empty string, and - only while cleanse goes through a temporary character - no string contains it
+   (str_ok; constantly true when the code has no temporary character) *)
 Definition wfb (v : nv) : bool :=
   match v with
   | Str s => str_ok s
@@ -597,7 +712,7 @@ Proof.
   cbn [forallb]. intros H. apply andb_true_iff in H as [Hx Hr].
   destruct (IH Hr) as [E F]. destruct x as [s|]; [|discriminate].
   cbn [map leaf_str]. rewrite E. split; [reflexivity|]. constructor; [|exact F].
-  cbn [leaf_ok str_ok] in Hx. apply negb_true_iff in Hx. exact Hx.
+  cbn [leaf_ok] in Hx. exact Hx.
 Qed.
 
 Lemma last_In {X} (l : list X) d : l <> [] -> In (last l d) l.
@@ -622,7 +737,7 @@ Qed.
 Lemma to_elem_inv v : elem_ok v = true -> elem_nv (to_elem v) = v /\ elem_wf (to_elem v).
 Proof.
   destruct v as [s|l]; cbn [elem_ok to_elem elem_nv elem_wf].
-  - intros H. split; [reflexivity|]. apply negb_true_iff in H. exact H.
+  - intros H. split; [reflexivity|]. exact H.
   - intros H. apply andb_true_iff in H as [H H3]. apply andb_true_iff in H as [H1 H2].
     destruct (leaves_inv l H3) as [E F]. rewrite E. split; [reflexivity|].
     split; [|split; [apply last_ok_leaves; assumption|exact F]].
@@ -656,7 +771,7 @@ Theorem list_roundtrip v :
   exists txt, join_from_lists 0 v = Some txt /\ split_into_lists txt = trim v.
 Proof.
   destruct v as [s|l]; cbn [wfb].
-  - intros H. apply negb_true_iff in H. exists (escape s).
+  - intros H. exists (escape s).
     destruct (string_roundtrip s H) as [E1 E2]. split; assumption.
   - intros H. apply andb_true_iff in H as [H H3]. apply andb_true_iff in H as [H1 H2].
     destruct (elems_inv l H3) as [E F].
@@ -665,6 +780,86 @@ Proof.
     destruct (elems_roundtrip _ Hne Hlast F) as [J P].
     rewrite E in J, P. eexists. split; eassumption.
 Qed.
+
+(* ---- the statement at full strength: EVERY string; EVERY list of the shape the property names ---- *)
+(* shape_ok = wfb without the str_ok conjuncts: depth <= 2, lists non-empty, a list of two or more
+   elements does not end in the empty string *)
+Definition leaf_shape (v : nv) : bool := match v with Str _ => true | Lst _ => false end.
+Definition elem_shape (v : nv) : bool :=
+  match v with
+  | Str _ => true
+  | Lst l => negb (is_nil l) && last_ok l && forallb leaf_shape l
+  end.
+Definition shape_ok (v : nv) : bool :=
+  match v with
+  | Str _ => true
+  | Lst l => negb (is_nil l) && last_ok l && forallb elem_shape l
+  end.
+
+Lemma forallb_impl {X} (f g : X -> bool) l :
+  (forall x, f x = true -> g x = true) -> forallb f l = true -> forallb g l = true.
+Proof.
+  intros H. induction l as [|x r IH]; [reflexivity|]. cbn [forallb]. intros E.
+  apply andb_true_iff in E as [E1 E2]. rewrite (H _ E1), (IH E2). reflexivity.
+Qed.
+
+Lemma shape_wfb v : (forall s, str_ok s = true) -> shape_ok v = true -> wfb v = true.
+Proof.
+  intros Hall. destruct v as [s|l]; cbn [shape_ok wfb]; [intros _; apply Hall|].
+  intros H. apply andb_true_iff in H as [H H3]. rewrite H. cbn [andb].
+  revert H3. apply forallb_impl. intros [s|l']; cbn [elem_shape elem_ok]; [intros _; apply Hall|].
+  intros H'. apply andb_true_iff in H' as [H' H3']. rewrite H'. cbn [andb].
+  revert H3'. apply forallb_impl. intros [s|l'']; cbn [leaf_shape leaf_ok]; [intros _; apply Hall|auto].
+Qed.
+
+Lemma wfb_shape v : wfb v = true -> shape_ok v = true.
+Proof.
+  destruct v as [s|l]; cbn [shape_ok wfb]; [reflexivity|].
+  intros H. apply andb_true_iff in H as [H H3]. rewrite H. cbn [andb].
+  revert H3. apply forallb_impl. intros [s|l']; cbn [elem_shape elem_ok]; [reflexivity|].
+  intros H'. apply andb_true_iff in H' as [H' H3']. rewrite H'. cbn [andb].
+  revert H3'. apply forallb_impl. intros [s|l'']; cbn [leaf_shape leaf_ok]; [reflexivity|auto].
+Qed.
+
+Definition string_roundtrip_full : Prop :=
+  forall s, join_from_lists 0 (Str s) = Some (escape s) /\ split_into_lists (escape s) = Str (strip s).
+Definition list_roundtrip_full : Prop :=
+  forall v, shape_ok v = true ->
+            exists txt, join_from_lists 0 v = Some txt /\ split_into_lists txt = trim v.
+
+(* Decided on the code as it is on this run (cleanse_tmp is regenerated from it):
+   - cleanse has no temporary character (the repaired tree): both full statements HOLD, no hypothesis
+     on the strings at all;
+   - cleanse goes through a temporary character t (the defect "value-contains-U+0001"): the full
+     statement is FALSE, witness the one-character string [t]. *)
+Theorem full_roundtrip_decided :
+  match cleanse_tmp with
+  | None => string_roundtrip_full /\ list_roundtrip_full
+  | Some t => ~ string_roundtrip_full
+  end.
+Proof.
+  destruct cleanse_tmp as [t|] eqn:Et.
+  - intros H. destruct (H [t]) as [_ H2]. rewrite split_escape in H2. injection H2 as H2.
+    exact (tmp_char_lost t Et H2).
+  - pose proof (str_ok_total Et) as Hall. split.
+    + intros s. apply string_roundtrip, Hall.
+    + intros v Hv. apply list_roundtrip, shape_wfb; assumption.
+Qed.
+
+Example phases_one_pass_example :
+  tmp_ok 1 = true /\ mem_char 1 [92; 92; 92; 124; 97; 92; 59; 92] = false
+  /\ unescape [92; 92; 92; 124; 97; 92; 59; 92] = [92; 124; 97; 59; 92].
+Proof. vm_compute. repeat split; reflexivity. Qed.
+
+(* the value the finding is about, [U+0001], and a list holding it: round trip decided the same way *)
+Example u0001_roundtrip :
+  let v := Lst [Str [1]; Lst [Str [92; 1; 124]; Str [1; 1]]] in
+  match cleanse_tmp with
+  | None => split_into_lists (escape [1]) = Str [1]
+            /\ match join_from_lists 0 v with Some t => split_into_lists t = v | None => False end
+  | Some t => split_into_lists (escape [t]) = Str [esc_char]
+  end.
+Proof. vm_compute. try split; reflexivity. Qed.
 
 (* C08-3: a cell without an unescaped separator is a plain string, never a list *)
 Definition no_unescaped_sep (s : str) : Prop :=
